@@ -1,9 +1,17 @@
 (* C05 - stop and timeout always bring a run to an end.
    This file holds nothing but the property theorems (closed by `exact`) and Print Assumptions.
    Model: Sched/Model.v (SigFlag / SigNode k = Scheduler.Signal: flag, then one atomic section per node, k = the signal
-   was forwarded to the executor; Timeout; WExecRefused / HRefused = the executor refuses an expired context).
-   Proofs: Sched/ProofsStop.v, Sched/ProofsTerm.v.  Witnesses: Sched/Examples2.v.  Tie to the code: tools/props/C05.py.
-   The wall-clock bound (MaxCleanUpTime) is runtime behaviour: observed by the check, not proved. *)
+   was forwarded to the executor; Timeout; WExecRefused = the executor refuses an expired context).
+   Proofs: Sched/ProofsStop.v, Sched/ProofsTerm.v.  Examples: Sched/Examples2.v.  Tie to the code: tools/props/C05.py.
+   What still needs a premise / is not proved:
+   - finiteness and "can be driven to Done" are proved for configurations without repeating steps (a repeating step
+     runs until a stop; after the stop it is not re-entered: C05_no_new_start / C05_started_at_most_once, proved for
+     every configuration);
+   - that a signalled process exits (or is killed by SIGKILL) is the environment's part: in the model WExecEnd is
+     always enabled for an executing command; which signal is sent (signalOnStop or the given one) is data of the call,
+     checked by the monitor on the real Kill events;
+   - the wall-clock bound (MaxCleanUpTime, agent.go:384-414) is runtime behaviour: observed by the check on real
+     processes, not proved. *)
 From Coq Require Import List.
 Import ListNotations.
 From BD.Sched Require Import Model Proofs ProofsFinal ProofsTerm ProofsStop Examples Examples2.
@@ -31,13 +39,21 @@ Print Assumptions C05_repeat_not_signalled.
 
 (* The stop signal reaches every running step - for every configuration, in every reachable stopped state: a
    non-repeating step whose worker is past its cancel test and whose node is still running is still in the queue of a
-   Signal pass; and when the pass reaches it while its command executes, the signal is forwarded (Kill) and the node
-   flipped to canceled.  (Which signal - signalOnStop or the given one - is data of the call: checked by the monitor.) *)
+   Signal pass (nobody can take it out but the pass itself) ... *)
 Theorem C05_signal_reaches : forall (c : cfg) s, Reach c s ->
   canceled s = true -> forall i, i < nsteps c -> (ph (nd s i) = PStarting \/ ph (nd s i) = PExec) ->
   st (nd s i) = NRunning -> repeat (steps c i) = false -> In i (sigq s).
 Proof. exact signal_reaches. Qed.
 Print Assumptions C05_signal_reaches.
+
+(* ... and EVERY pass that reaches a non-repeating step while its command executes forwards its signal (Kill) - the
+   first one (which also flips the node to canceled) and every later one: re-sends and the SIGKILL escalation after
+   MaxCleanUpTime reach a process that ignored the first signal.  (False before fix 767545b - F5a: node.signal only
+   acted on status running.) *)
+Theorem C05_escalation : forall (c : cfg) s k i q s', Inv c s -> sigq s = i :: q -> ph (nd s i) = PExec ->
+  repeat (steps c i) = false -> step c s (SigNode k) = Some s' -> k = true /\ ph (nd s' i) = PExec.
+Proof. exact escalation_reaches. Qed.
+Print Assumptions C05_escalation.
 
 Theorem C05_signal_forwarded : forall (c : cfg) s k i q s', Inv c s -> sigq s = i :: q -> ph (nd s i) = PExec ->
   st (nd s i) = NRunning -> repeat (steps c i) = false -> step c s (SigNode k) = Some s' ->
@@ -45,24 +61,8 @@ Theorem C05_signal_forwarded : forall (c : cfg) s k i q s', Inv c s -> sigq s = 
 Proof. exact kill_when_popped. Qed.
 Print Assumptions C05_signal_forwarded.
 
-(* ---- "processes that ignore the stop signal are force-killed once MaxCleanUpTime has elapsed" is FALSE of the pinned
-        code (F5a): full statement - a step still executing when a later Signal pass (the SIGKILL escalation of
-        agent.go:384-414) reaches it is forwarded that signal.
-   Witness (observed on the real scheduler, findings/C05-F5a-escalation-noop.json): the first pass flipped the node
-   to canceled; node.signal only acts on status running, so the second pass forwards nothing while the command is
-   still executing. *)
-Theorem C05_escalation_refuted :
-  exists s, run (one_step 2 false) (init (one_step 2 false)) f5a_exec = Some s /\
-    ph (nd s 0) = PExec /\ st (nd s 0) = NCancel /\ sigq s = [0] /\
-    step (one_step 2 false) s (SigNode true) = None /\
-    exists s', step (one_step 2 false) s (SigNode false) = Some s' /\ ph (nd s' 0) = PExec.
-Proof. exact f5a_witness. Qed.
-Print Assumptions C05_escalation_refuted.
-(* Strongest true statement about forwarding: C05_signal_reaches + C05_signal_forwarded (the FIRST pass that finds the
-   step running forwards its signal; excluded class: steps a previous pass has already flipped). *)
-
-(* The run ends: every execution is finite (explicit bound; configurations without repeating steps - a repeating step
-   is not re-entered after the stop by C05_no_new_start), the scheduler is never stuck before Done ... *)
+(* The run ends: every execution is finite (explicit bound; configurations without repeating steps), the scheduler is
+   never stuck before Done ... *)
 Theorem C05_all_executions_finite : forall c : cfg, norepeat c ->
   forall ls s, run c (init c) ls = Some s -> length ls <= bound c.
 Proof. exact all_executions_finite. Qed.
@@ -73,15 +73,15 @@ Theorem C05_can_complete : forall c : cfg, norepeat c ->
 Proof. exact can_complete. Qed.
 Print Assumptions C05_can_complete.
 
-(* ... and as canceled with the cancel and exit handlers: a run reported canceled gets exactly the configured ones among
-   [onCancel; onExit] (C04_handlers gives: started once each, in this order, after the last step). *)
+(* ... as canceled with the cancel and exit handlers: a run reported canceled gets exactly the configured ones among
+   [onCancel; onExit] (C04_handlers: started once each, in this order, after the last step; C04_outcome_stable: the
+   outcome does not change afterwards).  "Reported canceled" at the choice = stop flag set and not every step
+   finished/skipped (C04_canceled_iff); and a stopped run whose steps were cut short is never reported finished: *)
 Theorem C05_cancel_handlers : forall (c : cfg) s, overall c s = OCancel ->
   handlers_for c s = filter (hon c) [HCancel; HExit].
 Proof. exact cancel_handlers. Qed.
 Print Assumptions C05_cancel_handlers.
-(* "Reported canceled" = stop flag set and not every step finished/skipped (C04_canceled_iff); and a stopped run whose
-   steps were cut short is never reported finished: a step reported finished did run to a successful end
-   (C04_finished_means_ran, unconditional since fix ac08004). *)
+
 Theorem C05_finished_means_ran : forall c : cfg, donech c = true -> norepeat c ->
   forall s, Reach c s -> dry c = false ->
   forall i, st (nd s i) = NSuccess -> exists fs, outs (nd s i) = true :: fs.
@@ -89,9 +89,9 @@ Proof. exact finished_means_ran. Qed.
 Print Assumptions C05_finished_means_ran.
 
 (* Timeout (reading recorded in DESIGN.md section 6: a timed-out run is labelled failed): after the deadline no step
-   command and no handler command starts; a command cut by the deadline is labelled canceled and the run gets an error. *)
-Theorem C05_timeout_no_start : forall (c : cfg) s, timedout s = true ->
-  (forall i, step c s (WExecStart i) = None) /\ (forall h, step c s (HStart h) = None).
+   command starts; a command cut by the deadline is labelled canceled and the run gets an error; the chosen handlers
+   do run (C04_handlers has no timeout premise any more; before fix 246fa0b they were refused - F5d). *)
+Theorem C05_timeout_no_start : forall (c : cfg) s, timedout s = true -> forall i, step c s (WExecStart i) = None.
 Proof. exact timeout_no_start. Qed.
 Print Assumptions C05_timeout_no_start.
 
@@ -101,28 +101,36 @@ Theorem C05_timeout_cuts : forall (c : cfg) s i, donech c = true -> norepeat c -
 Proof. exact timeout_cuts. Qed.
 Print Assumptions C05_timeout_cuts.
 
-(* ---- "the chosen handlers really run" is FALSE of the pinned code after a timeout (F5d): full statement - in every
-        execution reaching Done the handlers started are the configured ones among [handler of the outcome; onExit]
-        (C04_handlers without its premise timedout = false).
-   Witness (observed on the real scheduler, findings/C05-F5d-timeout-handlers-refused.json): after the deadline
-   onFailure and onExit are chosen, their commands are refused (expired context), they are marked failed, never run. *)
-Theorem C05_timeout_handlers_refuted :
-  exists s1 s2 s3, run (one_step 0 true) (init (one_step 0 true)) f5d_pre = Some s1 /\
-    step (one_step 0 true) s1 HBegin = Some s2 /\ run (one_step 0 true) s2 f5d_post = Some s3 /\
-    pc s3 = LDone /\ handlers_for (one_step 0 true) s1 = [HFailure; HExit] /\ hstarts f5d_post = [] /\
-    step (one_step 0 true) s2 (HStart HFailure) = None /\
-    hatt (hst s3 HFailure) = 0 /\ hs (hst s3 HFailure) = NError /\ hatt (hst s3 HExit) = 0.
-Proof. exact f5d_witness. Qed.
-Print Assumptions C05_timeout_handlers_refuted.
-(* Strongest true statement: C04_handlers (premise timedout s3 = false). *)
+Theorem C05_timeout_handler_starts : forall (c : cfg) s h t0, pc s = LHandlers (h :: t0) false -> dry c = false ->
+  exists s', step c s (HStart h) = Some s'.
+Proof. exact handler_starts_after_timeout. Qed.
+Print Assumptions C05_timeout_handler_starts.
 
-(* Non-vacuity: a clean stop of two executing steps: both in the Signal queue, both forwarded the signal and flipped,
-   both end canceled, outcome canceled, handlers [onCancel; onExit], Done reached. *)
+(* Non-vacuity and history.  (1) A stop of two executing steps: both in the Signal queue, both forwarded the signal and
+   flipped, both end canceled, outcome canceled, handlers [onCancel; onExit], Done reached. *)
 Example C05_nonvacuous :
   (donech two_steps = true /\ norepeat two_steps) /\
   exists s1 s2 s3, run two_steps (init two_steps) stop2_pre = Some s1 /\
     step two_steps s1 HBegin = Some s2 /\ run two_steps s2 stop2_post = Some s3 /\
-    pc s3 = LDone /\ dry two_steps = false /\ timedout s3 = false /\ canceled s3 = canceled s1 /\
+    pc s3 = LDone /\ dry two_steps = false /\
     overall two_steps s1 = OCancel /\ hstarts stop2_post = [HCancel; HExit] /\
     map (fun i => st (nd s3 i)) [0; 1] = [NCancel; NCancel] /\ pc s1 = LExited.
 Proof. exact (conj stop2_ok stop2_witness). Qed.
+
+(* (2) The F5a scenario in the repaired model: the second Signal pass forwards its signal to the node the first pass has
+   flipped, because its command still executes. *)
+Example C05_escalation_repaired :
+  exists s, run (one_step 2 false) (init (one_step 2 false)) f5a_exec = Some s /\
+    ph (nd s 0) = PExec /\ st (nd s 0) = NCancel /\ sigq s = [0] /\
+    step (one_step 2 false) s (SigNode false) = None /\
+    exists s', step (one_step 2 false) s (SigNode true) = Some s' /\ ph (nd s' 0) = PExec.
+Proof. exact f5a_repaired. Qed.
+
+(* (3) The F5d scenario in the repaired model: after the DAG timeout onFailure and onExit are chosen and run. *)
+Example C05_timeout_handlers_repaired :
+  exists s1 s2 s3, run (one_step 0 true) (init (one_step 0 true)) f5d_pre = Some s1 /\
+    step (one_step 0 true) s1 HBegin = Some s2 /\ run (one_step 0 true) s2 f5d_post = Some s3 /\
+    pc s3 = LDone /\ timedout s3 = true /\ handlers_for (one_step 0 true) s1 = [HFailure; HExit] /\
+    hstarts f5d_post = [HFailure; HExit] /\ st (nd s3 0) = NCancel /\ overall (one_step 0 true) s3 = OError /\
+    hatt (hst s3 HFailure) = 1 /\ hs (hst s3 HFailure) = NSuccess /\ hatt (hst s3 HExit) = 1.
+Proof. exact f5d_repaired. Qed.
